@@ -266,7 +266,9 @@ def authLoop (p : Params) (rx : Reactions) (token key : Option Bytes) : Nat → 
   | n + 1, s =>
     match protoAuthenticate p rx s token key with
     | (.ok s1, _) => (.ok s1, s1)
-    | (.error .timeout, s1) => if n + 1 > 1 then authLoop p rx token key n s1 else (.error .timeout, s1)
+    | (.error .timeout, s1) =>
+      if n + 1 > 1 then authLoop p rx token key n s1
+      else (.error .timeout, disconnect s1)      -- since `fix:` "drop the connection when authentication times out"
     | (.error e, s1) => (.error e, s1)
 
 /-- `LAN.authenticate(token, key, retries)` -/
@@ -376,6 +378,7 @@ def deviceAuthenticate (p : Params) (rx : Reactions) (s : S) (token key : Bytes)
 /-- operations of a history -/
 inductive Op where
   | send (frame : Bytes)
+  | sendN (frame : Bytes) (retries : Nat)
   | authenticate (token key : Bytes)
   | advance (ms : Nat)
   | setMaxLifetime (ms : Option Nat)
@@ -389,6 +392,9 @@ inductive Outcome where
 
 def step (p : Params) (rx : Reactions) (s : S) : Op → Outcome × S
   | .send f => match lanSend p rx s f Generated.lanRetries with
+    | (.ok fs, s1) => (.frames fs, s1)
+    | (.error e, s1) => (.failed e, s1)
+  | .sendN f n => match lanSend p rx s f n with
     | (.ok fs, s1) => (.frames fs, s1)
     | (.error e, s1) => (.failed e, s1)
   | .authenticate t k => match lanAuthenticate p rx s (some t) (some k) Generated.lanRetries with
